@@ -100,21 +100,21 @@ func c11OpenNow() c11Open {
 // generators
 
 var c11Sites = []string{
-	"beacon:ShiftMatching:2:Lock",
-	"beacon:ShiftMatching:4:ReleaseTreasureGuard",
-	"beacon:ShiftExpired:2:Lock",
-	"beacon:ShiftExpired:4:ReleaseTreasureGuard",
-	"beacon:SelectExpiredForPatchWithCap:2:Lock",
-	"beacon:ReindexExpiration:2:Lock",
-	"beacon:Delete:2:Lock",
-	"swamp:CloneAndDeleteMatchingTreasures:2:atomic.StoreInt64",
-	"swamp_patch_expired:PatchExpired:2:atomic.StoreInt64",
-	"swamp_patch_expired:applyPatchExpiredOne:1:StartTreasureGuard",
-	"swamp:deleteHandler:1:StartTreasureGuard",
-	"swamp_patch:PatchFields:1:StartTreasureGuard",
-	"gateway_shift_matching:shiftMatchingOneSwamp:1:BeginVigil",
-	"gateway_patch_expired:PatchExpiredTreasures:1:BeginVigil",
-	"gateway_patch:patchTreasuresOneSwamp:1:BeginVigil",
+	"beacon:ShiftMatching:Lock:e380a5",
+	"beacon:ShiftMatching:ReleaseTreasureGuard:51890f",
+	"beacon:ShiftExpired:Lock:e380a5",
+	"beacon:ShiftExpired:ReleaseTreasureGuard:51890f",
+	"beacon:SelectExpiredForPatchWithCap:Lock:e380a5",
+	"beacon:ReindexExpiration:Lock:e380a5",
+	"beacon:Delete:Lock:e380a5",
+	"swamp:CloneAndDeleteMatchingTreasures:atomic.StoreInt64:1cc3f1",
+	"swamp_patch_expired:PatchExpired:atomic.StoreInt64:1cc3f1",
+	"swamp_patch_expired:applyPatchExpiredOne:StartTreasureGuard:f4a9b0",
+	"swamp:deleteHandler:StartTreasureGuard:ac9b2b",
+	"swamp_patch:PatchFields:StartTreasureGuard:f4a9b0",
+	"gateway_shift_matching:shiftMatchingOneSwamp:BeginVigil:3b19eb",
+	"gateway_patch_expired:PatchExpiredTreasures:BeginVigil:b2973a",
+	"gateway_patch:patchTreasuresOneSwamp:BeginVigil:b2973a",
 }
 
 func genPlan(t *rapid.T, max int) []vsched.Action {
@@ -130,8 +130,8 @@ func genPlan(t *rapid.T, max int) []vsched.Action {
 			a.SleepUs = rapid.SampledFrom([]int{20, 200, 1000, 4000}).Draw(t, "us")
 		default:
 			a.Kind = "pause"
-			a.Until = rapid.SampledFrom([]string{"mutators-done", "claimers-done", "site:swamp_patch:PatchFields:1:StartTreasureGuard",
-				"site:swamp:deleteHandler:1:StartTreasureGuard", "site:beacon:ReindexExpiration:2:Lock", "site:beacon:ShiftMatching:2:Lock"}).Draw(t, "until")
+			a.Until = rapid.SampledFrom([]string{"mutators-done", "claimers-done", "site:swamp_patch:PatchFields:StartTreasureGuard:f4a9b0",
+				"site:swamp:deleteHandler:StartTreasureGuard:ac9b2b", "site:beacon:ReindexExpiration:Lock:e380a5", "site:beacon:ShiftMatching:Lock:e380a5"}).Draw(t, "until")
 			a.MaxWaitMs = rapid.SampledFrom([]int{2, 10, 40}).Draw(t, "maxwait")
 			if a.Hit == 0 {
 				a.Hit = 1
